@@ -23,6 +23,9 @@ def run(report):
         obs, stats = S.small_grammar_obligations(max_size, full=full)
         return [(obs, stats)]
     from props.common import _call_with_deadline
+    import os
+    if os.environ.get('PV_SKIP_BOUNDED'):
+        return
     out = _call_with_deadline(small, (), 1500)
     if out is None:
         from pv.core import Ob, UNDECIDED
